@@ -30,7 +30,7 @@ def gen_theme(rng):
     return {"styles": styles, "inherit": rng.random() < 0.7}
 
 
-def gen_ops(rng, depth, budget, fid):
+def gen_ops(rng, depth, budget, fid, npool=4):
     ops = []
     n = rng.randint(1, 4)
     for _ in range(n):
@@ -41,9 +41,9 @@ def gen_ops(rng, depth, budget, fid):
         if r < 0.3:
             ops.append(["get", rng.choice(NAMES), rng.choice([None, None, "bold", "nosuch.style2"])])
         elif r < 0.55 and depth < 4:
-            ops.append(["use", gen_theme(rng), rng.random() < 0.6, gen_ops(rng, depth + 1, budget, fid)])
+            ops.append(["use", rng.randrange(npool), rng.random() < 0.6, gen_ops(rng, depth + 1, budget, fid)])
         elif r < 0.72 and depth < 4:
-            ops.append(["push", gen_theme(rng), rng.random() < 0.6, gen_ops(rng, depth + 1, budget, fid)])
+            ops.append(["push", rng.randrange(npool), rng.random() < 0.6, gen_ops(rng, depth + 1, budget, fid)])
         elif r < 0.82 and depth > 0:
             fid[0] += 1
             ops.append(["raise", fid[0]])
@@ -70,9 +70,12 @@ class C20:
         budget = [30 if tier == "thorough" else 14]
         fid = [0]
         ops = [["catch", gen_ops(rng, 1, budget, fid)] for _ in range(rng.randint(1, 3))]
-        themes = [gen_theme(rng) for _ in range(2)]
+        # a small pool of Theme objects: the *same object* is pushed again and again, over
+        # different parents, with and without inherit (what `theme = Theme(...)` at module level
+        # and `with console.use_theme(theme)` in a loop does)
+        pool = [gen_theme(rng) for _ in range(4)]
         return {"ops": ops, "live": rng.random() < 0.25, "base_theme": gen_theme(rng) if rng.random() < 0.3 else None,
-                "config_themes": themes}
+                "pool": pool, "config_themes": [0, 1]}
 
     def setup(self, sim, case, env):
         return Prog(sim, case, env)
@@ -109,12 +112,6 @@ class C20:
                 body = op[3] if op[0] != "catch" else op[1]
                 parent[i:i + 1] = body  # unwrap
                 yield c
-            if op[0] in ("use", "push") and op[1]["styles"]:
-                for name in list(op[1]["styles"]):
-                    c2 = copy.deepcopy(case)
-                    p2, j = get(c2["ops"], path)
-                    del p2[j][1]["styles"][name]
-                    yield c2
         if case["live"]:
             c = copy.deepcopy(case)
             c["live"] = False
@@ -127,6 +124,11 @@ class C20:
             c = copy.deepcopy(case)
             c["config_themes"] = []
             yield c
+        for i, t in enumerate(case["pool"]):
+            for name in list(t["styles"]):
+                c = copy.deepcopy(case)
+                del c["pool"][i]["styles"][name]
+                yield c
 
 
 class Prog:
@@ -148,6 +150,8 @@ class Prog:
                                get_time=self.clock.time, get_datetime=self.clock.datetime,
                                theme=self._theme(bt) if bt else None)
         self.layers = [(base, True)]
+        self.pool_objs = [self._theme(t) for t in case["pool"]]
+        self.pool_maps = [self._map(t) for t in case["pool"]]
         self.viol = []
         self.probes = {"lookups": 0, "unwound_blocks": 0, "max_unwind_depth": 0, "pop_base_attempts": 0, "non_inheriting_pushes": 0,
                        "use_theme_noninherit": 0, "config_roundtrips": 0, "live_wrapped": int(case["live"]), "missing_style_lookups": 0}
@@ -252,9 +256,9 @@ class Prog:
             if k == "get":
                 self.check(op[1], op[2], "(get op)")
             elif k in ("use", "push"):
-                t, inherit, body = op[1], op[2], op[3]
-                theme = self._theme(t)
-                layer = (self._map(t), inherit)
+                ti, inherit, body = op[1], op[2], op[3]
+                theme = self.pool_objs[ti]
+                layer = (self.pool_maps[ti], inherit)
                 if not inherit:
                     self.probes["non_inheriting_pushes" if k == "push" else "use_theme_noninherit"] += 1
                 before = [self.model_lookup(n, None) for n in NAMES]
@@ -278,7 +282,7 @@ class Prog:
                     self.probes["unwound_blocks"] += 1
                     raise
                 finally:
-                    if len(self.layers) > 1 and self.layers[-1] is layer:
+                    if len(self.layers) > 1 and self.layers[-1][0] is layer[0] and self.layers[-1] == layer:
                         self.layers.pop()
                         self.layer_is_use.pop()
                 after = [self.model_lookup(n, None) for n in NAMES]
@@ -309,8 +313,8 @@ class Prog:
                     self.check_all("after a refused pop of the base theme")
 
     def config_roundtrip(self):
-        for t in self.case["config_themes"]:
-            theme = self._theme(t)
+        for ti in self.case["config_themes"]:
+            theme = self._theme(self.case["pool"][ti])
             text = theme.config
             stream = io.StringIO()
             stream.write(text)
